@@ -302,6 +302,29 @@ def oracle_rqa(case, rec):
             if okc:
                 rec.check(int(v) == rqa.max_length(hv),
                           "sequential_max_vertlength" + tag)
+        # the same two objects at another threshold: the matrix object through
+        # its setter, the sequential one through its threshold attribute (it
+        # stores nothing else); only for series on the 1/8 grid, where the
+        # new threshold cannot coincide with a distance
+        vals = [v for row in case["series"]
+                for v in (row if isinstance(row, (list, tuple)) else [row])
+                if v is not None]
+        if not reg and not mv and all(float(v) * 8 == int(float(v) * 8)
+                                      for v in vals):
+            t2 = (0.37, 0.87, 1.37, 2.37)[
+                int(abs(float(case["param"])) * 8) % 4]
+            ok1, _ = rec.call("matrix_set_fixed_threshold",
+                              rp.set_fixed_threshold, t2)
+            sp.threshold = t2
+            o1, Sv = rec.call("sequential_vertline_dist_rethresholded",
+                              sp.vertline_dist)
+            o2, Sd = rec.call("sequential_diagline_dist_rethresholded",
+                              sp.diagline_dist)
+            if ok1 and o1 and o2:
+                rec.equal(Sv, rp.vertline_dist(),
+                          "sequential_equals_matrix_vert_rethresholded")
+                rec.equal(Sd, rp.diagline_dist(),
+                          "sequential_equals_matrix_diag_rethresholded")
     del n_series
 
 
